@@ -318,7 +318,7 @@ void h_flatten(void) {
 /* ------------------------------------------------------------ queue FIFO / stack LIFO / grow: wrappers over the list */
 void h_wrappers(void) {
     QV_IN(bool, ts);
-    gh_lock_depth = 0; gh_lock_acquired = 0;
+    gh_lock_depth = 0; gh_lock_acquired = 0; gh_lock_outer = 0;
     uchar e1[ESZ], e2[ESZ];
     QV_IN_BYTES(e1, ESZ); QV_IN_BYTES(e2, ESZ);
 #ifndef QV_NATIVE
